@@ -1242,6 +1242,8 @@ def main(outfile):
     py2lean_vblk.main_vblk(os.path.join(os.path.dirname(outfile), 'TranslatedVblk.lean'), write_if_changed)
     import py2lean_errreg                                        # separate module: shutdown, wait_init, run() (C09)
     py2lean_errreg.main_errreg(os.path.join(os.path.dirname(outfile), 'TranslatedErrReg.lean'), sys.modules[__name__])
+    import py2lean_wiring                                        # separate module: connect, _finalize, resolver, finalize (C15)
+    py2lean_wiring.main_wiring(os.path.join(os.path.dirname(outfile), 'TranslatedWiring.lean'), write_if_changed)
 
 if __name__ == '__main__':
     main(sys.argv[1])
